@@ -50,6 +50,22 @@ pub fn float_j(f: f64) -> J {
     json!({"k": "f", "c": "fin", "neg": neg, "d": d, "e": e})
 }
 
+/// Normal form of an f32 (its own shortest round-trip digits).
+pub fn float32_j(f: f32) -> J {
+    let neg = f.is_sign_negative();
+    if f.is_nan() || f.is_infinite() || f == 0.0 {
+        return float_j(f as f64);
+    }
+    let s = format!("{:e}", f.abs());
+    let (m, e) = s.split_once('e').expect("exponent");
+    let mut d: Vec<u32> = m.bytes().filter(|b| b.is_ascii_digit()).map(|b| (b - b'0') as u32).collect();
+    while d.len() > 1 && *d.last().unwrap() == 0 {
+        d.pop();
+    }
+    let e: i32 = e.parse().expect("exp int");
+    json!({"k": "f", "c": "fin", "neg": neg, "d": d, "e": e})
+}
+
 pub fn bool_j(b: bool) -> J {
     json!({"k": "b", "v": b})
 }
